@@ -672,11 +672,24 @@ func runC01(ctx *Ctx) *Result {
 	t0 := time.Now()
 	c01UnitIndent(ctx, res)
 	c01UnitSep(ctx, res)
+	if res.Broken == "" {
+		cross := c01UnitScope(ctx, res)
+		if res.Broken == "" {
+			cross = append(cross, c01UnitResolve(ctx, res)...)
+		}
+		if res.Broken == "" {
+			c01CrossCheckExtraction(ctx, res, cross)
+		}
+		c01ScopeFloors(res)
+	}
 	res.Count("wall_ms.unit", int(time.Since(t0).Milliseconds()))
 	t1 := time.Now()
 	var wg sync.WaitGroup
 	wg.Add(1)
 	go func() { defer wg.Done(); c01RunProbes(ctx, res) }()
+	tD := time.Now()
+	c01RunDict(ctx, res)
+	res.Count("wall_ms.dict", int(time.Since(tD).Milliseconds()))
 	c01RunStreams(ctx, res)
 	wg.Wait()
 	res.Count("wall_ms.whole-run", int(time.Since(t1).Milliseconds()))
@@ -700,6 +713,9 @@ func replayC01(ctx *Ctx, rep map[string]any) *Result {
 		res.Sample(map[string]any{"exit": r.Exit, "signal": r.Signal, "timed_out": r.TimedOut, "cpu_ms": r.CPU.Milliseconds(), "stderr": firstLines(r.Stderr, 12)})
 		if v.Bad() {
 			if viol := c01Process(ctx, res, c01Bad{c, v, r}, false); viol != nil {
+				if sfx, _ := rep["key_suffix"].(string); sfx != "" {
+					viol.Key += sfx
+				}
 				res.AddViolation(*viol)
 			}
 		}
@@ -707,6 +723,8 @@ func replayC01(ctx *Ctx, rep map[string]any) *Result {
 		c01ReplayIndent(ctx, res, rep)
 	case "sep":
 		c01ReplaySep(ctx, res, rep)
+	case "scope", "resolve":
+		c01ReplayScopeJob(ctx, res, rep)
 	default:
 		res.Broken = "unknown replay kind"
 	}
